@@ -3,7 +3,7 @@
 use crate::engine::*;
 use crate::graph::*;
 use crate::props::c02::GCase;
-use crate::props::c03::any_cfg;
+use crate::props::c03::any_cfg_depth;
 use crate::runner::*;
 use crate::fail;
 use proptest::prelude::*;
@@ -42,7 +42,7 @@ fn check_eventually(case: &GCase, cov: &mut Cov, forest_only: bool) -> Result<()
         if reported && !violated {
             fail!(format!("c11/{}/false-alarm", if exhaustive { "exhaustive" } else { "simulation" }), "eventually-property {} is reported violated under {:?}, but every maximal in-boundary path reaches a state satisfying it", PROP_NAMES[k], case.cfg);
         }
-        if forest && exhaustive && finish_default && !all_discovered && violated && !reported {
+        if forest && exhaustive && finish_default && case.cfg.target_max_depth.is_none() && !all_discovered && violated && !reported {
             fail!("c11/forest-counterexample-missed", "forest-shaped model: a maximal in-boundary path never satisfies {} but no counterexample is reported under {:?}", PROP_NAMES[k], case.cfg);
         }
         cov.label(match (forest, violated, reported) {
@@ -90,7 +90,7 @@ impl SubCheck for AnyShape {
         p.max_n = tier.pick(20, 40);
         p.exps = vec![Exp::Eventually, Exp::Eventually, Exp::Always, Exp::Sometimes];
         p.oob_rate = 40;
-        (graph_strategy(p), any_cfg(4)).prop_map(|(g, cfg)| GCase { g, cfg }).boxed()
+        (graph_strategy(p), any_cfg_depth(4, true)).prop_map(|(g, cfg)| GCase { g, cfg }).boxed()
     }
     fn check(&self, case: &GCase, cov: &mut Cov) -> Result<(), Fail> {
         check_eventually(case, cov, false)
@@ -117,8 +117,8 @@ impl SubCheck for Forests {
         p.exps = vec![Exp::Eventually, Exp::Eventually, Exp::Eventually, Exp::Always, Exp::Sometimes];
         p.shapes = vec![(1, Shape::Forest)];
         p.oob_rate = 40;
-        (graph_strategy(p), crate::props::c01::exhaustive_strat(), crate::props::c01::threads_strategy())
-            .prop_map(|(g, strat, threads)| GCase { g, cfg: RunCfg::plain(strat, threads) })
+        (graph_strategy(p), crate::props::c01::exhaustive_strat(), crate::props::c01::threads_strategy(), block_strategy())
+            .prop_map(|(g, strat, threads, block)| GCase { g, cfg: RunCfg::plain(strat, threads).with_block(block) })
             .boxed()
     }
     fn check(&self, case: &GCase, cov: &mut Cov) -> Result<(), Fail> {
